@@ -138,7 +138,10 @@ def assigned_names(stmts):
         elif isinstance(t, ast.Attribute):
             attrs.add(ast.unparse(t))
         elif isinstance(t, ast.Subscript):
-            mutated.add(ast.unparse(t.value))
+            root = t.value
+            while isinstance(root, ast.Subscript):
+                root = root.value
+            mutated.add(root.id if isinstance(root, ast.Name) else ast.unparse(t.value))
         elif isinstance(t, ast.Starred):
             target(t.value)
 
@@ -173,7 +176,13 @@ def assigned_names(stmts):
 
         def visit_Call(self, n):
             if isinstance(n.func, ast.Attribute) and n.func.attr in ("append", "extend", "add", "update", "pop", "sort", "remove", "clear", "insert"):
-                mutated.add(ast.unparse(n.func.value))
+                root = n.func.value
+                while isinstance(root, ast.Subscript):
+                    root = root.value
+                if isinstance(root, ast.Name):
+                    mutated.add(root.id)
+                elif isinstance(root, ast.Attribute) and not any(isinstance(x, ast.Call) for x in ast.walk(root)):
+                    mutated.add(ast.unparse(n.func.value))
             if isinstance(n.func, ast.Name) and n.func.id == "next" and n.args:
                 mutated.add(ast.unparse(n.args[0]))
             self.generic_visit(n)
@@ -226,6 +235,11 @@ class Interp:
             raise Unsupported(f"truth of {v!r}")
         if isinstance(v, SList):
             return v.n != 0 if not isinstance(v.n, int) else v.n != 0
+        if isinstance(v, SSet):
+            fin = getattr(v, "finite", None)
+            if fin is None:
+                raise Unsupported("truth of a symbolic set without finite carrier")
+            return z3.simplify(z3.Or([c for _, c in fin])) if fin else False
         if isinstance(v, SDict):
             raise Unsupported("truth of symbolic dict")
         if isinstance(v, (Obj, FuncRef, ClassRef)):
@@ -252,6 +266,11 @@ class Interp:
             return
         if self.V.in_contract_expr:
             return  # spec expressions are total: out-of-range selects are unspecified values
+        if exc == "AssertionError" and self.is_env_bool(ok_cond):
+            # an assertion about the uninterpreted environment: may fail like any havoc call may raise
+            if self.ctx.branch(ok_cond):
+                return
+            raise RaiseSig(exc, implicit=True)
         if any(any(exc_isa(exc, h) for h in hs) for hs in self.frame.handlers):
             if self.ctx.branch(ok_cond):
                 return
@@ -363,7 +382,15 @@ class Interp:
         return PyList(items)
 
     def e_Set(self, n, env):
-        return {self.hashable(self.eval(e, env)) for e in n.elts}
+        vals = [self.eval(e, env) for e in n.elts]
+        if not any(is_sym(v) for v in vals):
+            return {self.hashable(v) for v in vals}
+        ety = next(ty_of(v) for v in vals if is_sym(v))
+        x = z3.Const(self.ctx.fresh_name("sx"), sort_of(ety))
+        terms = [pack(self.ctx, v, ety) for v in vals]
+        r = SSet(z3.Lambda([x], z3.Or([x == t for t in terms])), ety)
+        r.finite = [(SV(t, ety), z3.BoolVal(True)) for t in terms]
+        return r
 
     def e_Dict(self, n, env):
         d = {}
@@ -523,6 +550,8 @@ class Interp:
         for s, other in ((a, b), (b, a)):
             if isinstance(s, (set, frozenset)) and isinstance(op, ast.BitAnd):
                 r.finite = [(e, z3.substitute(body, (x, pack(self.ctx, e, ety)))) for e in s]
+            elif isinstance(s, SSet) and getattr(s, "finite", None) is not None and isinstance(op, ast.BitAnd) and r.finite is None:
+                r.finite = [(e, z3.And(c, z3.substitute(body, (x, pack(self.ctx, e, ety))))) for e, c in s.finite]
         if isinstance(op, ast.Sub) and isinstance(a, (set, frozenset)):
             r.finite = [(e, z3.substitute(body, (x, pack(self.ctx, e, ety)))) for e in a]
         return r
@@ -784,7 +813,11 @@ class Interp:
             if not is_sym(idx):
                 self.implicit("KeyError", idx in base.d, "key-present", node)
                 return base.d[idx]
-            raise Unsupported("symbolic key into concrete dict")
+            for k, val in base.d.items():
+                if self.branch(self.py_eq(idx, k)):
+                    return val
+            self.implicit("KeyError", False, "key-present", node)
+            raise PathEnd()
         if isinstance(base, SDict):
             k = pack(self.ctx, idx, base.kty)
             self.implicit("KeyError", z3.simplify(z3.Select(base.dom, k)), "key-present", node)
@@ -910,6 +943,8 @@ class Interp:
             return [list_get(self.ctx, v, i) for i in range(v.n)]
         if isinstance(v, Iter):
             return self.iter_concrete(v)
+        if isinstance(v, Obj) and not v.rec and self.V.has_method(v.cls, "__iter__"):
+            return self.concrete_iter(self.call_method(v, "__iter__", [], {}))
         raise Unsupported(f"iteration over {v!r} needs a loop contract")
 
     def iter_concrete(self, it: "Iter"):
@@ -927,6 +962,9 @@ class Interp:
         if pat is not _MISSING:
             return pat
         out = []
+        first = self.eval(n.generators[0].iter, env)
+        if isinstance(first, Opaque) or (isinstance(first, FuncRef) and first.node is None):
+            return Opaque("comprehension over an unknown iterable")
 
         def rec(gens, env):
             if not gens:
@@ -945,6 +983,22 @@ class Interp:
     def e_ListComp(self, n, env):
         r = self.comp_values(n, env, lambda e: self.eval(n.elt, e))
         return PyList(r) if isinstance(r, list) else r
+
+    def is_env_bool(self, t):
+        """A condition that depends only on the uninterpreted environment (values of havoc calls)."""
+        if isinstance(t, bool):
+            return False
+        names = set()
+        stack, seen = [t], set()
+        while stack:
+            x = stack.pop()
+            if x.get_id() in seen:
+                continue
+            seen.add(x.get_id())
+            if z3.is_const(x) and x.decl().kind() == z3.Z3_OP_UNINTERPRETED:
+                names.add(x.decl().name())
+            stack.extend(x.children())
+        return bool(names) and all(nm.startswith(("truth_opq", "eq_opq", "isnone_opq", "isinst_", "hasattr_", "len_opq")) for nm in names)
 
     def e_GeneratorExp(self, n, env):
         r = self.comp_values(n, env, lambda e: self.eval(n.elt, e))
@@ -989,6 +1043,8 @@ class Interp:
     # ------------------------------------------------------------------ assignment
     def assign(self, target, v, env: Env):
         if isinstance(target, ast.Name):
+            if target.id in self.V.untracked(self.frame.qual):
+                v = Opaque(target.id)
             env.set(target.id, v)
         elif isinstance(target, (ast.Tuple, ast.List)):
             items = self.unpack_seq(v, len(target.elts), target)
@@ -1071,6 +1127,12 @@ class Interp:
             return
         if isinstance(base, Opaque):
             return
+        if isinstance(base, PyDict) and is_sym(idx):
+            for k in list(base.d):
+                if self.branch(self.py_eq(idx, k)):
+                    base.d[k] = v
+                    return
+            raise Unsupported("symbolic new key into concrete dict")
         raise Unsupported(f"item assignment on {base!r}")
 
 
